@@ -95,6 +95,24 @@ ListingsD == { WithAddrs(<< <<"m", <<o1>> >>, <<"n", <<o2>> >> >>) : o1 \in MemD
         \cup { WithAddrs(<< <<"m", <<"[%rax+%rbx*4+0x24]", v>> >>, <<"n", <<w>> >>, <<"n", <<v2, w2>> >> >>)
                : v \in {"%rbx", "%rcx"}, w \in {"%rbx", "%rdx"}, v2 \in {"%rbx", "%rcx"}, w2 \in {"%rbx", "%rdx"} }
 
+\* ---- operand-level groups mixing a $deref with later occurrences of operand captures (member order matters to
+\* nothing: every member is an operand pattern of its own) -----------------------------------------------
+Sp8 == DR(<<DF("main_reg", FL("%rsp")), DF("constant_offset", FL("0x8"))>>)
+Sp  == DR(<<DF("main_reg", FL("%rsp"))>>)
+PatternsG ==
+    { PAnd(<<PIns("m", <<X, Y>>), PIns("n", <<OPerm(<<Sp8, OOr(<<X, Y>>)>>)>>)>>),
+      PAnd(<<PIns("m", <<X, Y>>), PIns("n", <<OPerm(<<OOr(<<X, Y>>), Sp8>>)>>)>>),
+      PAnd(<<PIns("m", <<X>>), PIns("n", <<OAnd(<<Sp8, OOr(<<X, OLit("0x1")>>)>>)>>)>>),
+      PAnd(<<PIns("m", <<X>>), PIns("n", <<OAnd(<<OOr(<<X, OLit("0x1")>>), Sp8>>)>>)>>),
+      PAnd(<<PIns("m", <<X>>), PIns("n", <<OOr(<<Sp, ONot(X)>>)>>)>>),
+      PAnd(<<PIns("m", <<X>>), PIns("n", <<OOr(<<ONot(X), Sp>>)>>)>>),
+      PAnd(<<PIns("m", <<X>>), PIns("n", <<Sp8, X>>)>>) }
+RegsG == {"%r8", "%r8d", "%rax", "%r9"}
+ListingsG == { WithAddrs(<< <<"m", o1>>, <<"n", o2>> >>)
+               : o1 \in SeqsBetween({"%r8", "%rax"}, 1, 2),
+                 o2 \in { <<"[%rsp+0x8]", v>> : v \in RegsG } \cup { <<v, "[%rsp+0x8]">> : v \in RegsG }
+                        \cup { <<v>> : v \in RegsG \cup {"[%rsp]", "[%rsp+0x8]", "0x1"} } \cup { <<"[%rsp+0x8]", "0x1">>, <<"0x1", "[%rsp+0x8]">> } }
+UniverseG == [patterns |-> SetToSeq(PatternsG), listings |-> SetToSeq(ListingsG)]
 Universe  == [patterns |-> SetToSeq(PatternsI), listings |-> SetToSeq(ListingsI)]
 UniverseD == [patterns |-> SetToSeq(PatternsD), listings |-> SetToSeq(ListingsD)]
 UniverseO == [patterns |-> SetToSeq(PatternsO), listings |-> SetToSeq(ListingsO)]
